@@ -154,6 +154,9 @@ func runCli(m *Model, bin string, c cliCase) []Diff {
 			i++
 		case "--massive":
 			massive = true
+		case "--massive-timeout":
+			massive = true // a (positive) timeout alone selects the massive mode
+			i++
 		case "--dry-run", "-d":
 			dry = true
 		case "--strict":
@@ -347,6 +350,49 @@ func runC16(ctx *Ctx) *Report {
 			cliCase{Kind: "cli", Sub: sa[0], Args: sa[1:], Doc: long, Text: "<first row of 70000 bytes>", Stdout: "pipe", Expect: "fail"},
 			cliCase{Kind: "cli", Sub: sa[0], Args: sa[1:], Doc: blankThenLong, Text: "<blank rows, then a row of 66000 bytes>", Stdout: "pipe", Expect: "fail"},
 		)
+	}
+	// seeded stream: random forests in random notations, sometimes with a random edit, through random
+	// subcommands and flag combinations, with some of the tree already on disk
+	{
+		outArgs := [][]string{nil, {"--format", "json"}, {"--format", "yaml"}, {"--massive"}, {"--massive", "--format", "json"}, {"--massive-timeout", "1m"}}
+		mkArgs := [][]string{{"--target-dir", "t"}, {"--target-dir", "t", "-e", ".go", "-e", "Makefile"}, {"--target-dir", "t", "--dry-run"}, {"--target-dir", "t", "-d", "-e", ".md"}, {"--target-dir", "t/nested/deeper", "-e", ".go"}}
+		vfArgs := [][]string{{"--target-dir", "t"}, {"--target-dir", "t", "--strict"}}
+		alphabet := []byte(" \t-*+#x\n")
+		for k := 0; k < pick(ctx.Thorough, 2500, 400); k++ {
+			f := randForest(ctx.Rng, 1+ctx.Rng.Intn(8), []string{"plain", "plain", "unicode", "quotes", "path", "blanks"}, 3, rep.Dist)
+			doc := spell(f, randSpelling(ctx.Rng))
+			if ctx.Rng.Intn(3) == 0 && len(doc) > 0 {
+				pos := ctx.Rng.Intn(len(doc))
+				doc = append(append(append([]byte{}, doc[:pos]...), alphabet[ctx.Rng.Intn(len(alphabet))]), doc[pos:]...)
+			}
+			c := cliCase{Kind: "cli", Doc: hx(doc), Text: docText(doc), ViaFile: ctx.Rng.Intn(3) == 0, Stdout: "pipe"}
+			switch ctx.Rng.Intn(3) {
+			case 0:
+				c.Sub, c.Args = "output", outArgs[ctx.Rng.Intn(len(outArgs))]
+				if len(c.Args) == 0 && ctx.Rng.Intn(4) == 0 {
+					c.Stdout = "full"
+				}
+			case 1:
+				c.Sub, c.Args = "mkdir", mkArgs[ctx.Rng.Intn(len(mkArgs))]
+			default:
+				c.Sub, c.Args = "verify", vfArgs[ctx.Rng.Intn(len(vfArgs))]
+			}
+			if c.Sub != "output" && c.Args[1] == "t" {
+				paths, _ := nodePaths(f)
+				for _, q := range paths {
+					ok := !strings.ContainsAny(q, "\x00\\") && len(q) < 200
+					for _, e := range strings.Split(q, "/") {
+						if e == "" || e == "." || e == ".." {
+							ok = false
+						}
+					}
+					if ok && ctx.Rng.Intn(pick(c.Sub == "verify", 10, 2)) != 0 == (c.Sub == "verify") {
+						c.Pre = append(c.Pre, FSEntry{"t/" + q, []string{"d", "d", "f0"}[ctx.Rng.Intn(3)]})
+					}
+				}
+			}
+			cases = append(cases, c)
+		}
 	}
 	m := NewModel()
 	defer m.Close()
